@@ -198,6 +198,7 @@ class FakeSnowflakeCursor:
             .transform(transforms.array_agg_within_group)
             .transform(transforms.array_agg)
             .transform(transforms.dateadd_date_cast)
+            .transform(transforms.dateadd_quarter)
             .transform(transforms.dateadd_string_literal_timestamp_cast)
             .transform(transforms.datediff_string_literal_timestamp_cast)
             .transform(lambda e: transforms.show_schemas(e, self._conn.database))
